@@ -59,6 +59,10 @@ def problems():
                            x0=np.array([-0.5]), bounds=np.array([[-2.0, 2.0]]))
     out["expdrop2"] = dict(f=lambda x: float(np.sum(x + np.exp(-10.0 * x))), g=lambda x: 1.0 - 10.0 * np.exp(-10.0 * x),
                            x0=np.array([-0.5, -0.3]), bounds=np.array([[-2.0, 2.0], [-1.0, 3.0]]))
+    # a steep wall whose minimiser sits 5e-6 inside a bound: iterates land very close to the bound without being on it
+    out["wall2"] = dict(f=lambda x: float(1e12 * (x[0] - (1.0 + 5e-6)) ** 2 + (x[1] - 0.5) ** 2),
+                        g=lambda x: np.array([2e12 * (x[0] - (1.0 + 5e-6)), 2.0 * (x[1] - 0.5)]),
+                        x0=np.array([1.0 + 8e-6, 1.5]), bounds=np.array([[1.0, 2.0], [0.0, 2.0]]))
     return out
 
 
@@ -503,11 +507,21 @@ def scenario_update(c):
     out = []
     K = c.get("K", 4)
     mc = c.get("maxcor", 5)
-    eps = 2.2e-16
+    eps = float(c.get("eps_SY", 2.2e-16))
+    epskw = dict(eps_SY=eps) if c.get("eps_SY") is not None else {}
     probs = problems()
     for name in ("qp2", "qp3", "rosen2", "styb3"):
         p = probs[name]
         bad = {}
+        if c.get("eps_SY") is not None:
+            # a non-default curvature threshold that matters on THIS problem: half the smallest s.y/y.y of the pairs
+            # an ordinary run stores (they stay accepted; a rescaled objective then pushes them below the threshold)
+            P0 = run_once(p, dict(maxiter=K + 2, maxfun=10 ** 6, maxls=20, maxcor=mc + 3, ftol=0.0, gtol=1e-12))
+            if P0["exc"] is not None or not P0["snap"]["sk"].size:
+                continue
+            r0 = np.einsum("ij,ij->i", P0["snap"]["sk"], P0["snap"]["yk"]) / np.einsum("ij,ij->i", P0["snap"]["yk"], P0["snap"]["yk"])
+            eps = 0.5 * float(r0.min())
+            epskw = dict(eps_SY=eps)
         # ---- identity
         fstart = float(p["f"](np.clip(p["x0"], p["bounds"][:, 0], p["bounds"][:, 1])))
         for ftol, ftarget in ((0.0, None), (1e10, fstart - 1e-9 * (1 + abs(fstart))), (1e10, fstart + 1.0), (1e-3, fstart - 0.05 * (1 + abs(fstart))), (1e10, None)):
@@ -528,8 +542,14 @@ def scenario_update(c):
                 bad.setdefault("C13.identity_update_leaves_evaluations_identical", "evaluation points differ (ftol=%g ftarget=%r)" % (ftol, ftarget))
         # ---- switch of objective at update call `at`
         at = max(1, c.get("at", 2))
-        for kind in ("negated", "rescaled", "tilted"):
-            if kind == "negated":
+        for kind in ("negated", "rescaled", "tilted") + (("adaptive_all", "adaptive_some") if epskw else ()):
+            cfac = [3.0]
+            if kind.startswith("adaptive"):
+                # rescaling c*f chosen at the switch so that the rewritten pairs' s.y/y.y fall below the configured
+                # threshold (all of them / the lower half): only a filter that uses eps_SY drops them
+                f2 = lambda x: cfac[0] * float(p["f"](x))
+                g2 = lambda x: cfac[0] * np.asarray(p["g"](x), float)
+            elif kind == "negated":
                 f2 = lambda x: -float(p["f"](x))
                 g2 = lambda x: -np.asarray(p["g"](x), float)
             elif kind == "rescaled":
@@ -554,11 +574,17 @@ def scenario_update(c):
                     if i != at:
                         return f0, f0_old, grad, G
                     state["switched"] = True
+                    if kind.startswith("adaptive"):
+                        Xl_, Gl_ = [np.array(v, float) for v in X], [np.array(v, float) for v in G]
+                        rr = sorted(float((b - a).dot(gb - ga) / max((gb - ga).dot(gb - ga), 1e-300)) for a, b, ga, gb in zip(Xl_, Xl_[1:], Gl_, Gl_[1:]))
+                        rr = [r for r in rr if r > 0]
+                        if rr:
+                            cfac[0] = 1.3 * (rr[-1] if kind == "adaptive_all" else rr[len(rr) // 2]) / eps
                     newG = deque(g2(np.array(xx)) for xx in X)
                     state["seen"] = dict(X=[np.array(xx, float).copy() for xx in X], G=[g.copy() for g in newG], x=np.array(x, float).copy(), f=f2(x), grad=g2(x))
                     return f2(x), f0_old, g2(x), newG
                 pp = dict(p, f=fun, g=jac)
-                R = run_once(pp, dict(maxiter=at + 1 if ftol == 0.0 else K, maxfun=10 ** 6, maxls=20, maxcor=mc, ftol=ftol, gtol=1e-12), extra=dict(update_fun_def=upd))
+                R = run_once(pp, dict(maxiter=at + 1 if ftol == 0.0 else K, maxfun=10 ** 6, maxls=20, maxcor=mc, ftol=ftol, gtol=1e-12, **epskw), extra=dict(update_fun_def=upd))
                 if R["exc"] is not None:
                     bad.setdefault("no_exception", "%s switch raised %r" % (kind, R["exc"]))
                     continue
@@ -591,14 +617,14 @@ def scenario_update(c):
                 ck = OptimizeResult(fun=seen["f"], jac=seen["grad"].copy(), nfev=1, njev=1, nit=at, status=1, message="", x=seen["x"].copy(), success=True,
                                     hess_inv=LbfgsInvHessProduct(skr, ykr))
                 p2 = dict(p, f=f2, g=g2)
-                C = run_once(p2, dict(maxiter=at + 1, maxfun=10 ** 6, maxls=20, maxcor=mc, ftol=0.0, gtol=1e-12), checkpoint=ck, x0=seen["x"].copy())
+                C = run_once(p2, dict(maxiter=at + 1, maxfun=10 ** 6, maxls=20, maxcor=mc, ftol=0.0, gtol=1e-12, **epskw), checkpoint=ck, x0=seen["x"].copy())
                 if C["exc"] is None and R["res"].nit == at + 1 and C["res"].nit == at + 1:
                     if not _close(R["snap"]["x"], C["snap"]["x"], 1e-7):
                         bad.setdefault("C13.next_iterate_as_restart_on_new_objective",
                                        "%s switch at update %d: next iterate %s, a restart on the new objective from the rewritten history gives %s (pairs kept: %d)" % (
                                            kind, at, R["snap"]["x"].tolist(), C["snap"]["x"].tolist(), skr.shape[0]))
         # ---- gradient rewrite at the INITIAL update call of a restart (the history is already populated there)
-        A0 = run_once(p, dict(maxiter=3, maxfun=10 ** 6, maxls=20, maxcor=mc, ftol=0.0, gtol=1e-12))
+        A0 = run_once(p, dict(maxiter=3, maxfun=10 ** 6, maxls=20, maxcor=mc, ftol=0.0, gtol=1e-12, **epskw))
         if A0["exc"] is None and A0["snap"]["sk"].shape[0] >= 1:
             ck0 = A0["res"]
             st0 = dict(calls=0)
@@ -609,7 +635,7 @@ def scenario_update(c):
                     return f0, f0_old, grad, G
                 return -f0, f0_old, -np.asarray(grad, float), deque(-np.asarray(g, float) for g in G)
             pneg = dict(p, f=lambda x: -float(p["f"](x)), g=lambda x: -np.asarray(p["g"](x), float))
-            R0 = run_once(pneg, dict(maxiter=int(ck0.nit), maxfun=10 ** 6, maxls=20, maxcor=mc, ftol=0.0, gtol=1e-12), checkpoint=copy.deepcopy(ck0), x0=ck0.x, extra=dict(update_fun_def=upd0))
+            R0 = run_once(pneg, dict(maxiter=int(ck0.nit), maxfun=10 ** 6, maxls=20, maxcor=mc, ftol=0.0, gtol=1e-12, **epskw), checkpoint=copy.deepcopy(ck0), x0=ck0.x, extra=dict(update_fun_def=upd0))
             if R0["exc"] is not None:
                 bad.setdefault("C13.retained_pairs_satisfy_curvature", "gradient rewrite at the initial update call of a restart: the run raises %s: %s" % (type(R0["exc"]).__name__, str(R0["exc"])[:120]))
             elif R0["snap"]["sk"].size:
@@ -651,7 +677,7 @@ def scenario_update(c):
 
             def cb(xk, st):
                 return state["seen"] is not None
-            R = run_once(p, dict(maxiter=12, maxfun=10 ** 6, maxls=20, maxcor=6, ftol=0.0, gtol=1e-14), extra=dict(update_fun_def=upd2, callback=cb))
+            R = run_once(p, dict(maxiter=12, maxfun=10 ** 6, maxls=20, maxcor=6, ftol=0.0, gtol=1e-14, **epskw), extra=dict(update_fun_def=upd2, callback=cb))
             if state["seen"] is None:
                 continue
             if R["exc"] is not None:
